@@ -243,7 +243,7 @@ pub fn bases_mmap(u: usize) -> Vec<u64> {
 
 pub fn run(tier: Tier, replay: Option<String>) -> i32 {
     let ctx = crate::new_ctx("C02", tier, "exploration", &replay);
-    ctx.set_rule("the map without regions (fresh, and emptied by removals) and every set of disjoint non-empty regions over U one-byte cells (adjacent distinguished from merged) x bases {0, 0x1000, 2^32-3, 2^63-3, top of the address space} x every query method at every address of [base-2, base+U+2) plus {0,1,2^63,2^64-2,2^64-1} x every length/offset 0..=U+2 plus values around isize::MAX/usize::MAX; for GuestMemoryMmap (real mmaps; built, rotating with the layout, by one constructor call, by insertions from the back, or with extra regions that are removed again) and for a linear-search implementation that inherits all default methods (regions may end at 2^64-1); huge layouts (2^20..2^62 bytes, 1-byte and 2^61-byte holes) through raw regions, probed at region starts/ends +-1. Oracle: sorted interval list. A case is one (layout, address[, length]) query group; non-trivial = length >= 1 or an address-level query; distinct by construction.");
+    ctx.set_rule("the map without regions (fresh, and emptied by removals) and every set of disjoint non-empty regions over U one-byte cells (adjacent distinguished from merged) x bases {0, 0x1000, 2^32-3, 2^63-3, top of the address space} x every query method at every address of [base-2, base+U+2) plus {0,1,2^63,2^64-2,2^64-1} x every length/offset 0..=U+2 plus values around isize::MAX/usize::MAX; for GuestMemoryMmap (real mmaps; built, rotating with the layout, by one constructor call, by insertions from the back, with extra regions outside the layout that are removed again, or from a gap-free map whose hole-filling regions are removed again) and for a linear-search implementation that inherits all default methods (regions may end at 2^64-1); huge layouts (2^20..2^62 bytes, 1-byte and 2^61-byte holes) through raw regions, probed at region starts/ends +-1. Oracle: sorted interval list. A case is one (layout, address[, length]) query group; non-trivial = length >= 1 or an address-level query; distinct by construction.");
     ctx.assume("ranges of length 0 are executed but not judged (the statement quantifies over the bytes of the range)");
     let u = if tier.thorough() { 12 } else { 7 };
     let cells = cell_layouts(u);
@@ -284,7 +284,7 @@ pub fn run(tier: Tier, replay: Option<String>) -> i32 {
                         let addrs = probe_addrs(base, u, &l);
                         // the construction route rotates with the layout: one call, insertions,
                         // or extra regions removed again
-                        if let Some(m) = build_mmap_route_checked(ctx, "C02", &l, (ci + (base % 7) as usize) % 3) {
+                        if let Some(m) = build_mmap_route_checked(ctx, "C02", &l, (ci + (base % 7) as usize) % 4) {
                             check_queries(ctx, "mmap", &m, &l, &addrs, lens, true);
                             nlay.fetch_add(1, std::sync::atomic::Ordering::Relaxed);
                         }
@@ -349,7 +349,7 @@ pub fn run(tier: Tier, replay: Option<String>) -> i32 {
             let span = (l.regs.last().unwrap().0 + l.regs.last().unwrap().1 - 0x1000) as usize;
             let addrs: Vec<u64> = (0..span as u64 + 3).map(|d| 0x0fff + d).chain([0, u64::MAX]).collect();
             let lens2: Vec<usize> = vec![0, 1, 2, 3, 4, span, span + 1, usize::MAX];
-            for route in 0..3 {
+            for route in 0..4 {
                 if let Some(m) = build_mmap_route_checked(&ctx, "C02", &l, route) {
                     check_queries(&ctx, "mmap", &m, &l, &addrs, &lens2, true);
                 }
